@@ -56,7 +56,7 @@ def items(toks):
 def ident(sx):
     return "(mkId %d %s)" % (ord(sx[0]), nl(cps(sx[1:])))
 
-def value(v):
+def first(v):
     """v: ('d', '123') | ('i', 'name') | ('s', 'text')"""
     if v[0] == "d":
         return "VDigits %d %s" % (ord(v[1][0]), nl(cps(v[1][1:])))
@@ -64,14 +64,22 @@ def value(v):
         return "VIdent %s" % ident(v[1])
     return "VStr %s" % munits(v[1])
 
-def kv(key, l1=None, val=None, comma=False):
-    """val: None | (lay_after_eq, value, lay_after_value)"""
+def value(v, tl=()):
+    """tl: list of (lay, ('c', ch) | ('s', text, lay, ch))"""
+    ts = []
+    for l, t in tl:
+        if t[0] == "c":
+            ts.append("(%s, TChar %d)" % (l, ord(t[1])))
+        else:
+            ts.append("(%s, TStr %s %s %d)" % (l, munits(t[1]), t[2], ord(t[3])))
+    return "(mkVal (%s) [%s])" % (first(v), ";".join(ts))
+
+def kv(key, l1=None, val=None, comma=False, mod=None):
+    """val: None | (lay_after_eq, value_term, lay_after_value); mod: None | (lay, word, lay)"""
     l1 = l1 or lay()
-    if val is None:
-        vs = "None"
-    else:
-        vs = "(Some (%s, %s, %s))" % (val[0], value(val[1]), val[2])
-    return "(mkKv %s %s %s %s)" % (ident(key), l1, vs, "true" if comma else "false")
+    vs = "None" if val is None else "(Some (%s, %s, %s))" % (val[0], val[1], val[2])
+    ms = "None" if mod is None else "(Some (mkMod %s %s %s))" % (mod[0], nl(cps(mod[1])), mod[2])
+    return "(mkKv %s %s %s %s %s)" % (ident(key), l1, ms, vs, "true" if comma else "false")
 
 def args(l0, targ, kvs, msg):
     """targ: None | (l1, text, l2, lay_after_comma); kvs: None | (k1, [(lead, k)...], lsemi, lafter)"""
@@ -105,10 +113,10 @@ if __name__ == "__main__":
             (E, ("name", "fn")), (S, ("name", "f")), (E, ("char", "(")), (E, ("char", ")")), (S, ("char", "{")),
             # info!(ref = 12, user = "bob"; "hello");
             (nlnl, ("stmta", "info", args(E, None,
-                (kv("ref", S, (S, ("d", "12"), E), True), [(S, kv("user", S, (S, ("s", "bob"), E), False))], E, S), "hello"))),
+                (kv("ref", S, (S, value(("d", "12")), E), True), [(S, kv("user", S, (S, value(("s", "bob")), E), False))], E, S), "hello"))),
             (E, ("char", ")")), (E, ("char", ";")),
             # warn!(target: "net", attempts = 3 ; "retry");
-            (nlnl, ("stmta", "warn", args(E, (S, "net", E, S), (kv("attempts", S, (S, ("d", "3"), S), False), [], E, S), "retry"))),
+            (nlnl, ("stmta", "warn", args(E, (S, "net", E, S), (kv("attempts", S, (S, value(("d", "3")), S), False), [], E, S), "retry"))),
             (E, ("char", ")")), (E, ("char", ";")),
             # error!("boom");
             (nlnl, ("stmt", "error", E, "boom")), (E, ("char", ")")), (E, ("char", ";")),
@@ -116,7 +124,13 @@ if __name__ == "__main__":
             (nlnl, ("stmta", "debug", args(E, (S, "x", E, S), None, "plain"))), (E, ("char", ")")), (E, ("char", ";")),
             # info!(a, ref = 7 /* c */; "m");
             (nlnl, ("stmta", "info", args(E, None,
-                (kv("a", E, None, True), [(S, kv("ref", S, (S, ("d", "7"), lay(" ", [("/*", " c ", "")])), False))], E, S), "m"))),
+                (kv("a", E, None, True), [(S, kv("ref", S, (S, value(("d", "7")), lay(" ", [("/*", " c ", "")])), False))], E, S), "m"))),
+            (E, ("char", ")")), (E, ("char", ";")),
+            # warn!(user:? = u.name, n = x + 1, ref = 9; "m");
+            (nlnl, ("stmta", "warn", args(E, None,
+                (kv("user", E, (S, value(("i", "u"), [(E, ("c", ".")), (E, ("c", "n")), (E, ("c", "a")), (E, ("c", "m")), (E, ("c", "e"))]), E), True, mod=(E, "?", S)),
+                 [(S, kv("n", S, (S, value(("i", "x"), [(S, ("c", "+")), (S, ("c", "1"))]), E), True)),
+                  (S, kv("ref", S, (S, value(("d", "9")), E), False))], E, S), "m"))),
             (E, ("char", ")")), (E, ("char", ";")),
             (lay("\n"), ("char", "}")),
         ]
